@@ -237,6 +237,9 @@ def parseIns (s : String) : Option (List (TxId × Nat)) :=
   (Led.parseList s).mapM (fun p =>
     match p.splitOn ":" with
     | [t, i] => i.toNat?.map (fun n => (t, n))
+    -- `T:i:U` – the same outpoint with the transaction id spelled in upper-case hex (the id is decoded
+    -- case-insensitively, so it names the same coin; seed C02-4)
+    | [t, i, "U"] => i.toNat?.map (fun n => (t, n))
     | _ => none)
 
 structure ManReq where
